@@ -1684,3 +1684,191 @@ func ruleStartExclusive(e *Engine, r *Report) {
 	}
 	r.floor(rule, n, 1)
 }
+
+// ruleCodecNested (C13): nested values inside a persisted/wire type.
+//
+//	(a) presence-self: whether a nested value X of T is encoded / sized is
+//	    decided by X alone (nil / empty test of X) or unconditional - a
+//	    condition on a *different* field of T (a "has X" flag) makes the
+//	    decoder, which sets X whenever the tag is present, disagree with the
+//	    encoder for values where the two differ;
+//	(b) sizing covers encoding: when T's encoder writes nested X on every path,
+//	    every sizing function of T (Size, SizeUpperLimit) counts X on every
+//	    path.
+func ruleCodecNested(e *Engine, r *Report, minInst int, pkgs ...string) {
+	rule := "TBL-codec-nested"
+	n := 0
+	for _, pk := range pkgs {
+		pkg := e.pkgTypes(pk)
+		if pkg == nil {
+			continue
+		}
+		sc := pkg.Scope()
+		for _, name := range sc.Names() {
+			tn, ok := sc.Lookup(name).(*types.TypeName)
+			if !ok {
+				continue
+			}
+			nt, ok := tn.Type().(*types.Named)
+			if !ok {
+				continue
+			}
+			st, ok := nt.Underlying().(*types.Struct)
+			if !ok {
+				continue
+			}
+			find := func(names ...string) *ssa.Function {
+				for _, m := range names {
+					if f := e.Func("(*" + pk + "." + name + ")." + m); f != nil && len(f.Blocks) > 0 {
+						return f
+					}
+				}
+				return nil
+			}
+			enc := find("MarshalTo", "marshalTo")
+			if enc == nil {
+				continue
+			}
+			// for a sibling: nested field name -> (calls, unconditional?)
+			type use struct {
+				calls  []ssa.Instruction
+				uncond bool
+			}
+			nestedUses := func(fn *ssa.Function, methods map[string]bool) map[string]*use {
+				out := map[string]*use{}
+				if fn == nil {
+					return out
+				}
+				forEachCall(fn, func(s ssa.CallInstruction) {
+					c := s.Common().StaticCallee()
+					if c == nil || !methods[c.Name()] || c.Signature.Recv() == nil || len(s.Common().Args) == 0 {
+						return
+					}
+					// receiver derives from a field of T (of fn's receiver)
+					var fld string
+					e.dependsOn(s.Common().Args[0], func(x ssa.Value) bool {
+						switch y := x.(type) {
+						case *ssa.FieldAddr:
+							if s2 := derefStruct(y.X.Type()); s2 != nil && types.Identical(s2, st) && fld == "" {
+								fld = s2.Field(y.Field).Name()
+							}
+						case *ssa.Field:
+							if s2, ok := y.X.Type().Underlying().(*types.Struct); ok && types.Identical(s2, st) && fld == "" {
+								fld = s2.Field(y.Field).Name()
+							}
+						}
+						return false
+					}, 0)
+					if fld == "" {
+						return
+					}
+					u := out[fld]
+					if u == nil {
+						u = &use{}
+						out[fld] = u
+					}
+					u.calls = append(u.calls, s.(ssa.Instruction))
+				})
+				for _, u := range out {
+					hit := func(in ssa.Instruction) bool {
+						for _, c := range u.calls {
+							if c == in {
+								return true
+							}
+						}
+						return false
+					}
+					// a nil receiver has nothing to encode: paths behind `m == nil` are exempt
+					recvNil := reqCmp("", "==", func(v ssa.Value) bool { return len(fn.Params) > 0 && stripConv(v) == ssa.Value(fn.Params[0]) }, nilV())
+					u.uncond = !e.pathUnless(fn, nil, func(in ssa.Instruction) bool {
+						return e.isSuccessReturn(in) || (isReturn(in) && errResultIndex(fn) < 0)
+					}, hit, recvNil).Found
+				}
+				return out
+			}
+			fieldsOfT := func(v ssa.Value) map[string]bool {
+				out := map[string]bool{}
+				e.dependsOn(v, func(x ssa.Value) bool {
+					if f, base, ok := loadedField(x); ok {
+						if s2 := derefStruct(base.Type()); s2 != nil && types.Identical(s2, st) {
+							out[f.Name()] = true
+						} else if s3, ok := base.Type().Underlying().(*types.Struct); ok && types.Identical(s3, st) {
+							out[f.Name()] = true
+						}
+					}
+					return false
+				}, 1)
+				return out
+			}
+			encUses := nestedUses(enc, map[string]bool{"MarshalTo": true, "marshalTo": true, "MustMarshalTo": true})
+			sizers := map[string]*ssa.Function{"Size": find("Size"), "SizeUpperLimit": find("SizeUpperLimit")}
+			for sname, sf := range sizers {
+				if sf == nil {
+					continue
+				}
+				su := nestedUses(sf, map[string]bool{"Size": true, "SizeUpperLimit": true})
+				for fld, eu := range encUses {
+					if !eu.uncond {
+						continue
+					}
+					n++
+					u, ok := su[fld]
+					// a sizing function that does not mention the nested field at all is the business of the
+					// field-coverage rule (constant-size fields are covered by the constant part)
+					if !ok {
+						continue
+					}
+					r.check(u.uncond, rule, pk+"."+name+"."+sname+" counts nested "+fld+" whenever MarshalTo writes it", e.pos(sf.Pos()),
+						"MarshalTo writes "+fld+" on every path and so does the sizing function", sname+" counts the nested "+fld+" only under a condition, but MarshalTo encodes it on every path: for values failing the condition the encoding is longer than the advertised size and a preallocated buffer is overrun")
+				}
+			}
+			// (a) presence-self
+			check := func(fnName string, uses map[string]*use) {
+				for fld, u := range uses {
+					for _, c := range u.calls {
+						for _, f := range FactsAt(c) {
+							// "the previous step did not fail" is not a presence condition
+							if b, ok := f.V.(*ssa.BinOp); ok && (isErrorType(b.X.Type()) || isErrorType(b.Y.Type())) {
+								continue
+							}
+							// the exit condition of an earlier loop (`for _, e := range m.Entries`) is not one either
+							loopExit := false
+							for _, ifi := range ValueUsesAsCond(f.V) {
+								b := ifi.Block()
+								for _, pr := range b.Preds {
+									if b.Dominates(pr) {
+										loopExit = true
+									}
+								}
+							}
+							if loopExit {
+								continue
+							}
+							deps := fieldsOfT(f.V)
+							var other []string
+							for d := range deps {
+								if d != fld {
+									other = append(other, d)
+								}
+							}
+							if len(other) == 0 {
+								continue
+							}
+							sortStrings(other)
+							n++
+							r.bad(rule, pk+"."+name+"."+fnName+": presence of nested "+fld+" decided by "+joinOr(other), e.ipos(c),
+								"the nested "+fld+" is encoded / counted only under a condition on another field ("+joinOr(other)+"): a value whose "+fld+" is set while that condition is false loses it in the round trip (the decoder knows only the tag)")
+						}
+					}
+				}
+			}
+			check("MarshalTo", encUses)
+			for sname, sf := range sizers {
+				if sf != nil {
+					check(sname, nestedUses(sf, map[string]bool{"Size": true, "SizeUpperLimit": true}))
+				}
+			}
+		}
+	}
+	r.floor(rule, n, minInst)
+}
